@@ -4,6 +4,7 @@ package main
 
 import (
 	"fmt"
+	"regexp"
 	"go/ast"
 	"go/token"
 	"go/types"
@@ -463,8 +464,15 @@ func (c *FnCtx) callByContract(st *State, fs *FuncSpec, sig *types.Signature, re
 	// memory it allocates lies at references >= the current allocation counter, where the
 	// current heaps are still unconstrained, and its postcondition describes it there.
 	var except []Val
+	var wholeHeaps []string
 	if fs.Assigns != "" && fs.Assigns != "nothing" {
 		for _, item := range splitTop(fs.Assigns, ',') {
+			if m := heapItemRe.FindStringSubmatch(strings.TrimSpace(item)); m != nil {
+				if t := pre.lookupType(m[1]); t != nil {
+					wholeHeaps = append(wholeHeaps, c.elemKey(t))
+				}
+				continue
+			}
 			ex, err := parseSpecExpr(item)
 			if err != nil {
 				c.unsupported = append(c.unsupported, "bad assigns clause of "+key)
@@ -512,6 +520,22 @@ func (c *FnCtx) callByContract(st *State, fs *FuncSpec, sig *types.Signature, re
 			c.heapKeysOf(sig.Recv().Type(), seen, keys)
 		}
 	}
+	for _, wk := range wholeHeaps {
+		// the callee may write anywhere in the heap of this element type
+		for k := range st.heaps {
+			if strings.HasPrefix(k, wk) {
+				keys[k] = "whole"
+			}
+		}
+		for k, srt := range heapSorts {
+			if strings.HasPrefix(k, wk) && !strings.HasPrefix(k, "P_") && !strings.HasPrefix(k, "G_") {
+				if _, ok := keys[k]; !ok {
+					_ = srt
+					keys[k] = "whole"
+				}
+			}
+		}
+	}
 	ks := make([]string, 0, len(keys))
 	for k := range keys {
 		ks = append(ks, k)
@@ -520,6 +544,9 @@ func (c *FnCtx) callByContract(st *State, fs *FuncSpec, sig *types.Signature, re
 	for _, k := range ks {
 		c.callHeapKeys[k] = true
 		oldSym, newSym := c.havocHeap(st, k)
+		if keys[k] == "whole" {
+			continue
+		}
 		if fs.Assigns != "" {
 			exc := "true"
 			if strings.HasPrefix(k, "P_") {
@@ -654,6 +681,15 @@ func (c *FnCtx) frameFormula(old, cur *State, bound string, except []Val) string
 	var parts []string
 	for _, k := range ks {
 		if strings.HasPrefix(k, "G_") {
+			continue
+		}
+		skip := false
+		for _, wk := range c.frameWhole {
+			if strings.HasPrefix(k, wk) {
+				skip = true
+			}
+		}
+		if skip {
 			continue
 		}
 		srt := c.heapSort(k)
@@ -965,3 +1001,5 @@ func (c *FnCtx) dispatchCall(st *State, fn *types.Func, sig *types.Signature, re
 	st.pc, st.heaps, st.alloc, st.env = m.pc, m.heaps, m.alloc, m.env
 	return res, true
 }
+
+var heapItemRe = regexp.MustCompile(`^heap\(([\w.]+)\)$`)
